@@ -38,14 +38,15 @@ MC_QUICK_EXTRA = {
 # lines / 12 s + 14 s TLC; MC_raft_quick 73 706 / 898 k / 105 s + 109 s; cc_crash 91 502 / 1.24 M / 150 s.
 XSIM_QUICK = {
     "C02": [("MC_x_crash2.cfg", 400000)],
-    "C03": [("MC_x_elect3.cfg", 400000)],
+    "C03": [("MC_x_elect3.cfg", 400000), ("MC_x_prevote3_t2.cfg", 400000)],
     "C06": [("MC_x_read2.cfg", 400000)],
     "C07": [("MC_raft_cc_small.cfg", 400000)],
-    "C18": [("MC_x_nonvoting.cfg", 400000)],
+    "C18": [("MC_x_nonvoting.cfg", 400000), ("MC_x_witness.cfg", 400000)],
 }
 XSIM_THOROUGH = {
     "C02": [("MC_raft_quick.cfg", 1000000), ("MC_raft_crash.cfg", 1000000), ("MC_x_noneager.cfg", 600000)],
-    "C03": [("MC_x_elect3_m3.cfg", 1000000), ("MC_raft_cq_small.cfg", 1000000), ("MC_raft_crash.cfg", 1000000)],
+    "C03": [("MC_x_elect3_m3.cfg", 1000000), ("MC_raft_cq_small.cfg", 1000000), ("MC_raft_crash.cfg", 1000000),
+            ("MC_x_prevote3.cfg", 1000000)],
     "C06": [("MC_raft_read.cfg", 1000000), ("MC_x_nonvoting_read.cfg", 1000000)],
     "C07": [("MC_x_cc_crash.cfg", 1000000), ("MC_raft_cc.cfg", 1000000)],
     "C18": [("MC_x_nonvoting_read.cfg", 1000000), ("MC_raft_cq_small.cfg", 1000000)],
